@@ -3,6 +3,7 @@ package corr
 // Matcher-level case generation (streams) and evaluation shared by C01/C02/C04/C09.
 
 import (
+	"encoding/binary"
 	"fmt"
 	"net/netip"
 	"sort"
@@ -219,6 +220,26 @@ func genMatcherCase(t *testing.T, r *hx.RNG, c drvCfg, weights map[string]int) m
 				meta["ttl"] = fmt.Sprint(ttl)
 				from := responderFor(rr, foreignCfg, f)
 				return f.encode(foreignCfg.flow(), foreign[ttl], from, ttl, seqOfProbe(foreign[ttl])), meta
+			case "opts-mimic":
+				// IPv4 quote whose header carries 8 option bytes EQUAL to the probe's first 8 transport
+				// bytes, followed by the transport header of ANOTHER flow (ports changed): a reader that
+				// takes the transport header at byte 20 of the quote sees the probe's own
+				ttl, ok := pickSent()
+				if !ok || probeOf(ttl) == nil || c.v6() || len(probeOf(ttl)) < 28 {
+					return rr.Bytes(20), map[string]string{"stream": "noise"}
+				}
+				pr := probeOf(ttl)
+				q := append([]byte(nil), pr[:20]...)
+				q[0] = 0x47
+				binary.BigEndian.PutUint16(q[2:], binary.BigEndian.Uint16(q[2:])+8)
+				q = append(q, pr[20:28]...) // "options"
+				other := append([]byte(nil), pr[20:]...)
+				other[0] ^= 0x5a // other source port
+				other[3] ^= 0x01 // other destination port
+				q = append(q, other...)
+				from := pickRouter(rr, c)
+				meta["ttl"], meta["from"], meta["form"] = fmt.Sprint(ttl), from.String(), "te/quoted-opts-mimic"
+				return ip4Packet(from, c.Local, 1, 0x2222, 250, 0, 0, nil, icmp4Msg(11, 0, [4]byte{}, q)), meta
 			case "own-probe":
 				ttl, ok := pickSent()
 				if !ok || probeOf(ttl) == nil {
